@@ -307,7 +307,7 @@ func init() {
 	register(&Prop{
 		ID: "C01", Level: "exploration",
 		Rule: "one case = a router whose tree was shaped by a seeded mutation history (inserts, updates, deletes, truncations, committed and aborted transactions, copy cache capacity drawn) over a pool of 3-13 patterns built by extending and mutating earlier entries (shared prefixes, same wildcard names at the same positions, full- and mid-segment parameters, suffix and infix catch-alls, hostnames, optional 56-sibling fan-out), probed in batches between mutation steps with requests derived from the pool (instantiated patterns, perturbed); every probe goes through Lookup (route, parameters), Reverse, Iter.Reverse and ServeHTTP (handler identity and Context.Params), on the router, on read-only transactions and inside open write transactions, with contexts held open to vary pool recycling; the oracle is the reference matcher (uncompressed token trie, depth-first static > parameter > catch-all), the substitution round-trip, and agreement of all entry points. Which slash-adjusted route is offered is judged by C08 only. Non-trivial: at least one probe needed backtracking in the reference matcher and at least 3 probes matched directly; distinct = hash of (final set, probes).",
-		Run:  runC01, Quick: 16000, Thorough: 1600000,
+		Run:  runC01, Quick: 64000, Thorough: 12800000,
 		Real: commonReal, Stub: commonStub,
 		Tolerances: []string{"leading_slash_capture: where a mid-segment catch-all could capture a value starting with '/' (README allows it for a suffix catch-all, the property statement speaks of non-empty segments) both answers are accepted and counted"},
 		Domain:     []string{"request paths start with '/', contain no empty segment (one trailing slash allowed); hosts lower case; segment alphabet {a,b,ab,ba,c,abc}; <= 6 segments, <= 14 routes (+56 fan-out siblings)", "exhaustive small-alphabet enumeration mentioned by the quantifier is model checking and is not done"},
